@@ -137,8 +137,9 @@ const gcPrelude = `KEEP = {}
 local function inctx() local k = runtime.context().kill return k.cpu ~= nil or k.millis ~= nil or k.memory ~= nil end
 local function mk(id, res, spin)
   -- spin: inside a limited context the finaliser never returns, so the limit is reached (and the
-  -- context killed) while a finaliser is running
-  local o = setmetatable({id = id}, {__gc = function(o) emit("gc", o.id, inctx()) if res then KEEP[#KEEP + 1] = o end if spin and inctx() then while true do end end end})
+  -- context killed) while a finaliser is running (where the only limit is a time limit the
+  -- simulated clock has to move for that to happen: tick)
+  local o = setmetatable({id = id}, {__gc = function(o) emit("gc", o.id, inctx()) if res then KEEP[#KEEP + 1] = o end if spin and inctx() then local k = runtime.context().kill while true do if k.cpu == nil then tick(1) end end end end})
   emit("mark", id)
   return o
 end
@@ -334,6 +335,9 @@ func runGC(ctx *core.RunCtx) {
 	g.ln(`emit("end")`)
 	src := g.b.String()
 	ctx.Sample = src
+	if os.Getenv("VSIM_DUMP") != "" {
+		fmt.Fprintf(os.Stderr, "---- gc program ----\n%s\n----\n", src)
+	}
 
 	col := &collector{}
 	rt.VerifSetFinalizerFunc(col.setFinalizer)
@@ -372,7 +376,11 @@ func runGC(ctx *core.RunCtx) {
 		n, _ := c.Arg(0).TryInt()
 		clock.Advance(uint64(n))
 		ctx.SimMs += uint64(n)
-		ctx.Count("fault.clock-jump past a time limit", 1)
+		if n > 1 {
+			ctx.Count("fault.clock-jump past a time limit", 1)
+		} else {
+			ctx.Count("probe.simulated ms passed inside a spinning finaliser", 1)
+		}
 		return c.Next(), nil
 	}, 1, false)
 	h.Def("collect", func(t *rt.Thread, c *rt.GoCont) (rt.Cont, error) {
